@@ -3,10 +3,13 @@
 Require Import LV.Common.Bytes.
 Local Open Scope Z_scope.
 
-Definition wadd (w a b : Z) : Z := Z.land (a + b) (Z.ones w).
-Definition wnot (w x : Z) : Z := Z.lxor x (Z.ones w).
-Definition wrotr (w x k : Z) : Z := Z.lor (Z.shiftr x k) (Z.land (Z.shiftl x (w - k)) (Z.ones w)).
-Definition wrotl (w x k : Z) : Z := Z.lor (Z.land (Z.shiftl x k) (Z.ones w)) (Z.shiftr x (w - k)).
+(* w = width in bits, m = the all-ones word 2^w - 1 *)
+Definition m32 : Z := 0xFFFFFFFF.
+Definition m64 : Z := 0xFFFFFFFFFFFFFFFF.
+Definition wadd (m a b : Z) : Z := Z.land (a + b) m.
+Definition wnot (m x : Z) : Z := Z.lxor x m.
+Definition wrotr (w m x k : Z) : Z := Z.lor (Z.shiftr x k) (Z.land (Z.shiftl x (w - k)) m).
+Definition wrotl (w m x k : Z) : Z := Z.lor (Z.land (Z.shiftl x k) m) (Z.shiftr x (w - k)).
 Definition wshr (x k : Z) : Z := Z.shiftr x k.
 
 (* big-endian / little-endian value of a byte group *)
